@@ -515,6 +515,10 @@ ArgOK(x, empty) ==
   \* a malformed query never yields objects; it is an error, except that on an empty collection
   \* the empty result is a valid result too
   /\ kind # "ok" => (n = 0 /\ andc # "objects" /\ (c = "ok" => empty))
+  \* joined to a valid search with Or / Operation("or"): an error too, never the other operand's objects
+  /\ Len(x) >= 8 => (/\ x[8] \notin {"panic", "inconsistent-err"}
+                      /\ (kind = "ok" => x[8] = "ok")
+                      /\ (kind # "ok" => (x[8] # "objects" /\ (x[8] = "ok" => empty))))
   /\ (kind = "unknownfield" /\ c # "ok") => c = "unknownfield"
   /\ (kind = "unknownop" /\ c # "ok") => c = "unknownop"
   /\ (kind = "mistyped" /\ c # "ok") => c = "casting"
@@ -547,8 +551,19 @@ Agree(o, F) == "panic" \notin DOMAIN o /\ ReadsOK(o, F) /\ QueriesOK(o, F) /\ Or
 \* objects from the pre-state, everything else from the files.
 \* the versions of an object the index may still describe: the one before the call, or (chunked bulk
 \* insert: earlier chunks are committed) any version the interrupted call wrote
+\* every version of an object the test was acknowledged for (or asked for in a batch) since the last reset
+RECURSIVE VersionsAt(_, _)
+VersionsAt(i, u) ==
+  IF i = 0 \/ Trace[i].ev = "reset" THEN {}
+  ELSE LET x == Trace[i]  r == VersionsAt(i - 1, u) IN
+       CASE x.ev = "put" /\ x.slot = u /\ x.c = "ok" -> r \cup {x.after}
+         [] x.ev = "many" -> r \cup {x.batch[j].after : j \in {k \in 1..Len(x.batch) : "after" \in DOMAIN x.batch[k] /\ x.batch[k].slot = u}}
+         [] OTHER -> r
+AsyncOn == hdr.ev = "hdr" /\ hdr.cfg.async
 Versions(F, Sm, u) ==
   {F[u]} \cup (IF u \in DOMAIN Sm THEN {Sm[u]} ELSE {})
+         \* asynchronous writes (deviation AsyncStaleIndex): any accepted version, see CrashAsyncOK
+         \cup (IF AsyncOn THEN VersionsAt(l - 1, u) ELSE {})
          \cup (IF wev > 0 /\ Trace[wev].ev = "many"
                THEN {Trace[wev].batch[i].after : i \in {j \in 1..Len(Trace[wev].batch) : "after" \in DOMAIN Trace[wev].batch[j] /\ Trace[wev].batch[j].slot = u}}
                ELSE {})
@@ -564,7 +579,7 @@ QueryStaleOK(qe, G, F, o) ==
 AgreeStale(o, F, Sm) ==
   /\ "panic" \notin DOMAIN o /\ ReadsOK(o, F)
   /\ "q" \in DOMAIN o => \E G \in StaleViews(F, Sm) : \A i \in 1..Len(o.q) : QueryStaleOK(o.q[i], G, F, o)
-AgreeD(o, F, Sm) == Agree(o, F) \/ ("StaleIndex" \in Dev /\ AgreeStale(o, F, Sm))
+AgreeD(o, F, Sm) == Agree(o, F) \/ ((IF AsyncOn THEN "AsyncStaleIndex" \in Dev ELSE "StaleIndex" \in Dev) /\ AgreeStale(o, F, Sm))
 
 LoadReports(E_) == E_.load = "corrupted" \/ ("create" \in DOMAIN E_ /\ E_.create = "corrupted")
 LoadFine(E_)    == E_.load \in {"ok", "corrupted"} \/ (E_.load = "notfound" /\ "create" \in DOMAIN E_ /\ E_.create \in {"ok", "corrupted"})
@@ -589,8 +604,28 @@ CrashOK(E_, Sm, Sp) ==
      /\ FM(o2) = F /\ Readable(o2)                                          \* Repair touches no object file
      /\ AgreeD(o2, F, Sm)
      /\ E_.close = "ok" /\ E_.load3 = "ok" /\ o3.control = "ok" /\ AgreeD(o3, F, Sm)
+\* C05 with asynchronous writes.  "Every acknowledged operation is reflected" is promised for synchronous mode
+\* only; everything else stands: nothing unreadable, every object file is entirely ONE version the collection
+\* accepted for that object (and belongs to an object stored before or after the interrupted call), the first load /
+\* Control report corruption or index and files agree, Repair touches no file and converges.
+\* Known finding (deviation AsyncStaleIndex, K03): the schema is committed by calls that do not flush (Delete,
+\* Commit) and objects are flushed by steps that commit later, so a crash can leave the index describing ANOTHER
+\* accepted version of an object than its file - older or newer; Control cannot see it, Repair keeps the entry.
+CrashAsyncOK(E_, Sm, Sp) ==
+  LET o1 == WithRecs(E_.obs1, E_.recs)
+      o2 == WithRecs(E_.obs2, E_.recs)
+      o3 == WithRecs(E_.obs3, E_.recs)
+      F  == FM(o1)
+  IN /\ Readable(o1) /\ 0 \notin DOMAIN F
+     /\ \A u \in DOMAIN F : F[u] \in VersionsAt(l - 1, u) /\ (u \in DOMAIN Sm \/ u \in DOMAIN Sp)
+     /\ LoadFine(E_)
+     /\ (LoadReports(E_) \/ o1.control = "corrupted") \/ AgreeD(o1, F, Sm)
+     /\ E_.repair = "ok" /\ o2.control = "ok"
+     /\ FM(o2) = F /\ Readable(o2)
+     /\ AgreeD(o2, F, Sm)
+     /\ E_.close = "ok" /\ E_.load3 = "ok" /\ o3.control = "ok" /\ AgreeD(o3, F, Sm)
 Conf_C05 ==
-  At => (E.ev = "crash" => CrashOK(E, wpre, store))
+  At => (E.ev = "crash" => IF AsyncOn THEN CrashAsyncOK(E, wpre, store) ELSE CrashOK(E, wpre, store))
 
 \* C11: Control / first load report corruption iff indexed ids # file ids; Repair restores agreement
 DamageOK(E_, Sm, F) ==
@@ -709,6 +744,12 @@ Conf_C17 ==
 
 \* C17 (shape part): a directory populated under one declaration of the type and opened under another
 ResOf(E_, name) == LET i == CHOOSE i \in 1..Len(E_.res) : E_.res[i][1] = name IN E_.res[i][2]
+\* the refused Create asked for the opposite cache / async settings: they are neither persisted nor in force (a later
+\* write of a synchronous collection is on disk when the call returns)
+RefusedKeepsSettings(E_) ==
+  "settings_before" \in DOMAIN E_ =>
+     /\ E_.settings_after = E_.settings_before
+     /\ (~E_.async /\ ResOf(E_, "put") = "ok") => E_.put_files = 1
 ShapeOK(E_) ==
   /\ E_.setup = "ok"
   /\ \A i \in 1..Len(E_.res) : E_.res[i][2] # "panic"
@@ -718,9 +759,9 @@ ShapeOK(E_) ==
                    ResOf(E_, nm) = "structchanged"
              /\ E_.same /\ E_.reopen_a = "ok" /\ E_.count_a = 3
        [] E_.rel = "constraint" ->
-             /\ ResOf(E_, "create") = "fielddesc" /\ ResOf(E_, "create2") = "fielddesc" /\ E_.same_after_reads
+             /\ ResOf(E_, "create") = "fielddesc" /\ ResOf(E_, "create2") = "fielddesc" /\ E_.same_after_reads /\ RefusedKeepsSettings(E_)
        [] E_.rel = "ext" ->
-             /\ ResOf(E_, "create") = "extmismatch" /\ ResOf(E_, "create2") = "extmismatch" /\ E_.same_after_reads
+             /\ ResOf(E_, "create") = "extmismatch" /\ ResOf(E_, "create2") = "extmismatch" /\ E_.same_after_reads /\ RefusedKeepsSettings(E_)
        [] E_.rel = "compat" ->
              \* Create with a compatible schema is idempotent and preserves data
              /\ \A nm \in {"create", "create2", "count", "all", "search", "exist", "schema", "put", "many", "delete", "flush", "close"} : ResOf(E_, nm) = "ok"
